@@ -23,7 +23,9 @@ type concProfile struct {
 	mergeKinds                                                                      bool // schema biased to mergeable columns with order-sensitive merges
 	stableRows                                                                      [2]int
 	linkDelay                                                                       int
-	indexers                                                                        int // threads creating bitmap indexes on the primary beside the writers
+	indexers                                                                        int  // threads creating bitmap indexes on the primary beside the writers
+	filterReaders                                                                   int  // reader threads running filter chains + Range beside the writers (C04 part B)
+	schemaSorts, schemaTriggers                                                     bool // the schema thread also creates sorted indexes / creates and drops triggers
 }
 
 // genConc materialises a concurrent case: set-up transactions creating the stable rows,
@@ -275,16 +277,78 @@ func genConc(prop string, seed uint64, run int, p concProfile, av avoid) *Case {
 	for i, n := 0, r.Range(p.minReaders, p.maxReaders); i < n; i++ {
 		addThread("reader")
 	}
+	for i := 0; i < p.filterReaders; i++ {
+		g.p.filters = true
+		tp := ThreadProg{Role: "reader"}
+		for x, nt := 0, r.Range(1, 3); x < nt; x++ {
+			var chain []FStep
+			for tries := 0; tries < 5; tries++ {
+				chain = g.genFilter()
+				ok := len(chain) > 0
+				for _, f := range chain {
+					for _, n := range f.Names {
+						ok = ok && n != "nosuch"
+					}
+				}
+				if ok {
+					break
+				}
+				chain = nil
+			}
+			tp.Txns = append(tp.Txns, TxnProg{Ops: []Op{{Kind: "frange", Filter: chain}}})
+		}
+		cs.Threads = append(cs.Threads, tp)
+	}
 	for i := 0; i < p.snapshots; i++ {
 		cs.Threads = append(cs.Threads, ThreadProg{Role: "snapshot", Arg: r.Intn(4), Txns: make([]TxnProg, r.Range(1, 2))})
 	}
 	for i := 0; i < p.indexers; i++ {
 		tp := ThreadProg{Role: "indexer"}
 		var t TxnProg
-		for k, n := 0, r.Range(1, 2); k < n; k++ {
-			ix := g.genIndex()
-			ix.Name = fmt.Sprintf("lix%d_%d", i, k)
-			t.Ops = append(t.Ops, Op{Kind: "mkindex", Index: ix})
+		live := []string{}
+		for k, n := 0, r.Range(1, 2+2*b2i(p.schemaTriggers)); k < n; k++ {
+			switch {
+			case p.schemaSorts && r.Chance(0.6):
+				var sc []ColSpec
+				for _, c := range g.cols {
+					if c.Kind == KString || c.Kind == KEnum {
+						sc = append(sc, c)
+					}
+				}
+				if len(sc) > 0 {
+					t.Ops = append(t.Ops, Op{Kind: "mksort", Sort: &SortSpec{Name: fmt.Sprintf("lsx%d_%d", i, k), Col: sc[r.Intn(len(sc))].Name}})
+					continue
+				}
+				fallthrough
+			case p.schemaTriggers && r.Chance(0.8):
+				if len(live) > 0 && r.Chance(0.4) {
+					j := r.Intn(len(live))
+					t.Ops = append(t.Ops, Op{Kind: "droptrigger", Name: live[j]})
+					live = append(live[:j:j], live[j+1:]...)
+					continue
+				}
+				var tc []ColSpec
+				for _, c := range g.cols {
+					if c.Kind != KBool && c.Kind != KKey {
+						tc = append(tc, c)
+					}
+				}
+				name := fmt.Sprintf("ltg%d_%d", i, k)
+				// several triggers on one column: the registry entry of the column is what the drops edit
+				col := tc[r.Intn(len(tc))].Name
+				if len(t.Ops) > 0 && t.Ops[len(t.Ops)-1].Kind == "mktrigger" && r.Chance(0.6) {
+					col = t.Ops[len(t.Ops)-1].Col
+				}
+				t.Ops = append(t.Ops, Op{Kind: "mktrigger", Name: name, Col: col})
+				live = append(live, name)
+			default:
+				if p.schemaTriggers || p.schemaSorts {
+					continue // this property's schema thread sticks to its own kind of computed column
+				}
+				ix := g.genIndex()
+				ix.Name = fmt.Sprintf("lix%d_%d", i, k)
+				t.Ops = append(t.Ops, Op{Kind: "mkindex", Index: ix})
+			}
 		}
 		tp.Txns = []TxnProg{t}
 		cs.Threads = append(cs.Threads, tp)
